@@ -430,12 +430,14 @@ impl IRNode {
             IRNode::Join { output_schema, .. } => output_schema.clone(),
             IRNode::Distinct { input } => input.output_schema(),
             IRNode::Union { inputs } => {
-                // All inputs must have same schema
-                if inputs.is_empty() {
-                    vec![]
-                } else {
-                    inputs[0].output_schema()
-                }
+                // All inputs must have same schema. An empty Union (e.g. what is left of an
+                // always-false branch) has no schema of its own, so take the first input
+                // that reports one.
+                inputs
+                    .iter()
+                    .map(IRNode::output_schema)
+                    .find(|schema| !schema.is_empty())
+                    .unwrap_or_default()
             }
             IRNode::Aggregate { output_schema, .. } => output_schema.clone(),
             IRNode::Antijoin { output_schema, .. } => output_schema.clone(),
